@@ -169,8 +169,13 @@ func VH_C05() {
 			wants = append(wants, want{full, "18446744073709551615", false, "", nil})
 			return NewAttr(key, uint64(18446744073709551615))
 		case 4:
-			wants = append(wants, want{full, "1.5", false, "", nil})
-			return NewAttr(key, 1.5)
+			// float64 values, incl. one that is exactly representable as a float32 but needs all its float64 digits
+			f := []float64{1.5, float64(float32(0.1)), 1e21, 5e-324, -0.25}[vChoose(5)]
+			wants = append(wants, want{full, "", false, "", func(v string) bool {
+				got, err := strconv.ParseFloat(v, 64)
+				return err == nil && got == f
+			}})
+			return NewAttr(key, f)
 		case 5:
 			wants = append(wants, want{full, "1.5s", true, "", nil})
 			return NewAttr(key, 1500*time.Millisecond)
@@ -221,7 +226,12 @@ func VH_C05() {
 	}
 	var items []vItem
 	for n := 0; n < nA; n++ {
-		key := vLegalKey(vParam("key", 1))
+		var key string
+		if vParam("key", 1) == 0 {
+			key = []string{"a", "b", "c"}[n%3] // concrete keys: the run is about the values and their positions
+		} else {
+			key = vLegalKey(vParam("key", 1))
+		}
 		for _, it := range items {
 			vAssume(it.key != key)
 		}
